@@ -1,6 +1,6 @@
 CONSTANTS NK = 5  NM = 2  MaxPasses = 2  MaxSteps = 1  MaxInserts = 1  EditFrom = "signed"  MutSet = "all"
           Shapes <- NoShapes  Coins <- AllCoins  HashTypes <- StdHashTypes  Cases <- CasesModel
 SPECIFICATION MSpec
-INVARIANTS AttributionIsSigned CommitmentInvariance NoInvention RetagKills TransplantKills ValidIffAttributed
+INVARIANTS AttributionIsSigned CommitmentInvariance NoInvention RetagKills TransplantKills OpenOnlyInCorner ValidIffAttributed
 PROPERTIES EditOnlyRemoves SigningOnlyAdds
 CHECK_DEADLOCK FALSE
